@@ -407,6 +407,13 @@ struct conf_node_inaddr *conf_register_inaddr(struct conf_node_object *parent, c
     cnode = conf_register_node(parent, name, CONF_INADDR, sizeof(*cnode));
     cnode->def_hostname = hostname;
     cnode->def_service = service;
+    if (!cnode->base.present) {
+        /* Not in the file: the defaults apply now, not only after the next load. */
+        xfree(cnode->hostname);
+        xfree(cnode->service);
+        cnode->hostname = xstrdup(hostname);
+        cnode->service = xstrdup(service);
+    }
     cnode->state = CA_UNKNOWN;
     return cnode;
 }
